@@ -175,7 +175,8 @@ func CmdGen(pkgs, fnSuffix, dump string, dbg bool, nopanic bool) int {
 // instead of being abstracted: small, loop-free, pure-Go code.
 func defaultInlineExt() map[string]bool {
 	m := map[string]bool{}
-	for _, n := range []string{"bytes.NewReader", "(*bytes.Reader).Read", "(*bytes.Reader).ReadByte", "(*bytes.Reader).Len", "(*bytes.Reader).Size",
+	for _, n := range []string{"bytes.NewBuffer", "(*bytes.Buffer).Read", "(*bytes.Buffer).ReadByte", "(*bytes.Buffer).Len", "(*bytes.Buffer).empty", "(*bytes.Buffer).Reset",
+		"bytes.NewReader", "(*bytes.Reader).Read", "(*bytes.Reader).ReadByte", "(*bytes.Reader).Len", "(*bytes.Reader).Size",
 		"(encoding/binary.littleEndian).Uint16", "(encoding/binary.littleEndian).Uint32", "(encoding/binary.littleEndian).Uint64",
 		"(encoding/binary.littleEndian).PutUint16", "(encoding/binary.littleEndian).PutUint32", "(encoding/binary.littleEndian).PutUint64",
 		"(encoding/binary.bigEndian).Uint16", "(encoding/binary.bigEndian).Uint32", "(encoding/binary.bigEndian).Uint64",
